@@ -232,6 +232,13 @@ def main():
     a = clang(repo, verif, extra, "-Xclang", "-ast-dump=json")
     ast = json.loads(a.stdout)
     res["enums"], res["maps"], res["functions"] = enums_and_maps(ast)
+    # declared member types of every named record of the translation unit (AST, independent of layout dumps)
+    rf = {}
+    def recs(n):
+        if n.get("kind") == "RecordDecl" and n.get("name") and n.get("completeDefinition"):
+            rf[n["name"]] = {f["name"]: f.get("type", {}).get("qualType", "") for f in n.get("inner", []) if f.get("kind") == "FieldDecl" and f.get("name")}
+    walk(ast, recs)
+    res["record_fields"] = rf
     m = clang(repo, verif, extra, "-dM", "-E")
     res["macros"] = macros(m.stdout)
     res["top_level_decls"] = len(ast.get("inner", []))
